@@ -78,9 +78,22 @@ def collect(ctx, props, plans, design_cfgs=(), refinement=False, report_deaths=F
         total_states += run_.summary["distinct_states"]
         for k, v in run_.summary["ops"].items():
             ops[k] = ops.get(k, 0) + v
-        for r in run_.by_kind("mismatch"):
-            mismatches.append({"world": plan["world"], "op": r["op"], "args": r.get("args"), "diff": r.get("diff"),
-                               "steps": mirrorlib.strip(behs[r["beh"]][: r["step"] + 1])})
+        first_mis = run_.by_kind("mismatch")
+        if first_mis:
+            # a divergence must reproduce when the same behaviour is replayed again
+            again_run = mirrorlib.MirrorRun(ctx, plan["world"])
+            again_run.binary, again_run.rank, again_run.world_tla = run_.binary, run_.rank, run_.world_tla
+            subset = [behs[r["beh"]] for r in first_mis]
+            again_run.replay(subset)
+            again = {r["beh"] for r in again_run.by_kind("mismatch")} | {d["beh"] for d in again_run.deaths}
+            kept = 0
+            for i, r in enumerate(first_mis):
+                if i in again:
+                    kept += 1
+                    mismatches.append({"world": plan["world"], "op": r["op"], "args": r.get("args"), "diff": r.get("diff"),
+                                       "steps": mirrorlib.strip(behs[r["beh"]][: r["step"] + 1])})
+            if kept < len(first_mis):
+                ctx.log("%d divergences did not reproduce on a second replay and are dropped" % (len(first_mis) - kept))
         for r in run_.by_kind("stopped-serving"):
             if "C09" in props:
                 ctx.violation("StillServing", r["op"], "stopped", "the mirror stopped answering VotingView after %s %s" % (r["op"], json.dumps(r.get("args"))),
